@@ -139,6 +139,9 @@ func (e *Engine) WriteEvidence(res *CheckResult, seed int, checkerCmd string, ex
 			for _, p := range r.Ctx.Pruned {
 				pruned = append(pruned, shortKey(name)+": path not verified beyond: "+p)
 			}
+			for k := range r.Ctx.Trusted {
+				trustedSet["library function modelled by its documented semantics: "+k] = true
+			}
 			for _, t := range r.Ctx.TypingUsed {
 				trustedSet["typing fact assumed at entry of "+shortKey(name)+" (stored pointers lie below the allocation frontier): "+t] = true
 			}
